@@ -913,3 +913,46 @@ package httpserver
 //@ // merged request matchers): zero-annotation safety sweep - index, slice, nil dereference, division, explicit panic
 //@ use @verif/specs/stdlib.spec:stdlib
 //@ use @verif/specs/stdlib.spec:nethttp_api
+
+//@ unit safe_path frames=on props=C02 verify_pure=on filter=`httpserver\.SafePath$`
+//@ // C02 "served content stays inside the root" for the handlers that stat or open through the OS (ext, tryfiles, markdown,
+//@ // templates): the disk path they use is the site root joined with the CLEANED, ROOTED request path - path.Clean of "/"+p
+//@ // has no ".." element left (documented property of path.Clean on rooted paths), so the join cannot leave the root - with
+//@ // NUL bytes removed and an empty root read as the working directory
+//@ extern path/filepath.ToSlash
+//@   pure
+//@ extern path/filepath.FromSlash
+//@   pure
+//@ extern path/filepath.Join
+//@   pure
+//@ extern strings.Replace
+//@   pure
+//@ extern path.Clean
+//@   pure
+//@ define req(p string) string = strings.Replace(filepath.ToSlash(p), "\x00", "", -1)
+//@ func SafePath
+//@   pure
+//@   ensures [root_joined_with_the_cleaned_rooted_request_path] (siteRoot != "" ==> result == filepath.Join(siteRoot, filepath.FromSlash(path.Clean("/" + req(reqPath))))) && (siteRoot == "" ==> result == filepath.Join(".", filepath.FromSlash(path.Clean("/" + req(reqPath)))))
+
+//@ unit server_rest_sweep props=C19,C08 files=server.go nilchecks=on nonnil_params=on exclude=`httpserver\.Server\)\.(ServeHTTP|serveHTTP)$|httpserver\.(NewServer|getFallbacks|makeHTTPServerWithTimeouts|makeHTTPServerWithHeaderLimit|makeTLSConfig|trimPathPrefix|DefaultErrorFunc|WriteSiteNotFound|WriteTextResponse|SafePath|stricterTimeout)$|ServeHTTP\$[0-9]+$` filter=`.`
+//@ // the rest of server.go (listening, wrapping listeners, serving, stopping, keep-alive accept, site info): safety sweep
+//@ use @verif/specs/stdlib.spec:stdlib
+//@ // representation invariant of a Server built by NewServer: it has its http.Server, and its sites - at least one, a
+//@ // listener group is never empty (unit listener_groups appends a site to every group it makes) - are live, each with its
+//@ // TLS configuration (InspectServerBlocks files one per site)
+//@ define srvOK() bool = s != nil && s.Server != nil && len(s.sites) >= 1 && forall(k, 0, len(s.sites), s.sites[k] != nil && s.sites[k].TLS != nil)
+//@ define srvSites() bool = s != nil && len(s.sites) >= 1 && forall(k, 0, len(s.sites), s.sites[k] != nil && s.sites[k].TLS != nil)
+//@ func (*Server).Listen
+//@   requires srvSites()
+//@ func (*Server).WrapListener
+//@   requires srvOK()
+//@ func (*Server).ListenPacket
+//@   requires srvOK()
+//@ func (*Server).Serve
+//@   requires srvOK()
+//@ func (*Server).Address
+//@   requires srvOK()
+//@ func (*Server).OnStartupComplete
+//@   requires srvOK()
+//@ func (*Server).outputSiteInfo
+//@   requires srvOK()
